@@ -38,7 +38,7 @@ ENCODINGS = ["nd_c", "nd_f", "int", "object", "view", "series", "series_shift", 
 def enc1(values, e, kind):
     """encode a 1-D sequence (decisions / rewards)"""
     if e == "list_mixed":
-        return [int(v) if (not isinstance(v, str) and float(v).is_integer() and kind == "r") else v for v in values]
+        return [int(v) if (not isinstance(v, str) and float(v).is_integer() and abs(float(v)) < 2 ** 62 and kind == "r") else v for v in values]
     if e in ("nd_c", "nd_f", "frame", "f4"):
         return np.asarray(values)
     if e == "narrow":
@@ -52,7 +52,7 @@ def enc1(values, e, kind):
     if e == "int":
         if kind == "r" and all(float(v) in (0.0, 1.0) for v in values) and len(values) % 2:
             return np.asarray([bool(v) for v in values])  # boolean rewards (a legal encoding of binary rewards)
-        if kind == "r" and all(float(v).is_integer() for v in values):
+        if kind == "r" and all(float(v).is_integer() and abs(float(v)) < 2 ** 62 for v in values):  # must fit an int64 array
             return np.asarray([int(v) for v in values])
         return np.asarray(values)
     if e == "object":
